@@ -71,7 +71,7 @@ _HEADER_ATTRS = {"queryStartPosition", "queryEndPosition", "referenceStartPositi
 _CONTENT_ATTRS = {"segments", "alignedPairs"}
 
 
-def records_frozen(ck, rule):
+def records_frozen(ck, rule, skip_modules=("src.diagnostic.alignment_comparer", "src.compare_alignments")):
     """A record's header is derived once, in AlignmentResultRow.create, from the pairs it lists. Nothing may change the listed
     content (segments / alignedPairs, the attribute or the list in place) or a header field afterwards: the row objects of the
     first and second pass are written again after a join."""
@@ -83,8 +83,8 @@ def records_frozen(ck, rule):
     p = ck.ctx.p
     n_fn = 0
     for f in p.nontest_functions():
-        if f.is_lambda or not f.module.name.startswith("src."):
-            continue                      # the plotters and other diagnostics included: they run inside the worker, on the row that is written later
+        if f.is_lambda or not f.module.name.startswith("src.") or f.module.name in skip_modules:
+            continue                      # (the comparison tool works on alignments read from files: C19.6) - the plotters and other diagnostics included: they run inside the worker, on the row that is written later
         n_fn += 1
         in_init = f.name in ("__init__", "__post_init__", "__new__")
 
@@ -415,9 +415,9 @@ def header_derivation(ck, rule, exact=False):
                 raise AnalysisError(f"{where(fn, pa.node)}: custom sort key for the pair list not recognised")
         else:
             raise AnalysisError(f"{where(fn, pa.node)}: pair list is not produced by sorted(...): {T.show(P)[:120]}")
-        # identity arguments
+        # identity arguments (not for C07.G9: a converted id or length aborts nothing)
         for k in ("queryId", "referenceId", "queryLength", "referenceLength", "reverseStrand"):
-            if k in args:
+            if k in args and not rule.startswith("C07"):
                 if k in ("queryId", "referenceId") and args[k] == T.mk_call("int", [V(k)]):
                     continue              # int() of a molecule id names the same molecule
                 ck.judge(args[k] == V(k), rule, f"AlignmentResultRow.create:{k}", where(fn, pa.node),
